@@ -11,11 +11,17 @@
 package main
 
 import (
+	"context"
 	"fmt"
+	"net/netip"
 	"os"
+	"runtime"
 	"strings"
+	"sync"
 
 	"ssvharness/internal/common"
+
+	"github.com/database64128/shadowsocks-go/router"
 )
 
 const f3Key = "F3:portset-criterion-port0-panic"
@@ -26,24 +32,83 @@ type engine struct {
 	poolDir string
 }
 
-// evalCases runs a batch of cases on the implementation, the model and the oracle.
-func (e *engine) evalCases(cases []Case) error {
-	var lines []string
-	type span struct{ build, req int }
-	spans := make([]span, len(cases))
+type span struct{ build, req int }
+
+// render turns a batch of cases into driver lines.
+func render(cases []Case) (lines []string, spans []span) {
+	spans = make([]span, len(cases))
 	for i, c := range cases {
 		ls, b, q := c.lines()
 		spans[i] = span{len(lines) + b, len(lines) + q}
 		lines = append(lines, ls...)
 	}
-	var model []string
-	if e.o.Driver != "" {
-		var err error
-		model, err = common.RunDriverOnce(e.o.Driver, lines)
-		if err != nil {
-			return err
-		}
+	return
+}
+
+// runModel feeds the batches to Lean drivers, several processes at a time (the batches are independent:
+// every case starts with `reset`). Returns the answers per batch (nil when no driver was given).
+func (e *engine) runModel(batches [][]Case) ([][]string, error) {
+	out := make([][]string, len(batches))
+	if e.o.Driver == "" {
+		return out, nil
 	}
+	workers := runtime.NumCPU() / 2
+	if workers < 1 {
+		workers = 1
+	}
+	if workers > 8 {
+		workers = 8
+	}
+	var (
+		wg   sync.WaitGroup
+		mu   sync.Mutex
+		ferr error
+		next = make(chan int)
+	)
+	for w := 0; w < workers; w++ {
+		wg.Add(1)
+		go func() {
+			defer wg.Done()
+			for i := range next {
+				lines, _ := render(batches[i])
+				res, err := common.RunDriverOnce(e.o.Driver, lines)
+				mu.Lock()
+				if err != nil && ferr == nil {
+					ferr = err
+				}
+				out[i] = res
+				mu.Unlock()
+			}
+		}()
+	}
+	for i := range batches {
+		next <- i
+	}
+	close(next)
+	wg.Wait()
+	return out, ferr
+}
+
+// evalAll runs the cases (in batches) on the model, then on the implementation and the oracle.
+func (e *engine) evalAll(cases []Case) error {
+	const batch = 200
+	var batches [][]Case
+	for i := 0; i < len(cases); i += batch {
+		batches = append(batches, cases[i:min(i+batch, len(cases))])
+	}
+	models, err := e.runModel(batches)
+	if err != nil {
+		return err
+	}
+	for i, b := range batches {
+		e.evalCases(b, models[i])
+	}
+	return nil
+}
+
+// evalCases runs a batch of cases on the implementation and the oracle and compares with the model's answers.
+func (e *engine) evalCases(cases []Case, model []string) {
+	lines, spans := render(cases)
 	for i := range cases {
 		c := &cases[i]
 		r, bres, bpan := buildImpl(*c, e.poolDir)
@@ -94,7 +159,6 @@ func (e *engine) evalCases(cases []Case) error {
 		e.rep.Case(strings.Join(lines[spans[i].build-len(c.Routes):spans[i].req+len(c.Requests)], "\n"), nontrivial)
 		e.rep.Sample(map[string]any{"routes": c.Routes, "load": bres, "requests": len(c.Requests), "answers": answers})
 	}
-	return nil
 }
 
 func (e *engine) countRoute(rt RouteSpec) {
@@ -169,6 +233,29 @@ func f3Cases() []Case {
 	return []Case{dst, src}
 }
 
+// probeExcluded runs the real router at the points the theorems exclude by hypothesis (Req.WF / valid target) and
+// records what happens in the evidence notes; these are not property failures: service/ never produces such requests.
+func (e *engine) probeExcluded() {
+	base := Case{TCPClients: []string{"c0", "c1"}, UDPClients: []string{"c0", "c1"}, Servers: []string{"s0", "s1"}, DefTCP: "c0", DefUDP: "c0"}
+	base.Routes = []RouteSpec{{Name: "by-server", Client: "c1", FromServers: []string{"s1"}}}
+	if r, res, _ := buildImpl(base, e.poolDir); r != nil {
+		q := ReqSpec{Net: "tcp", Server: 2, User: "u", Src: "10.0.0.1", SrcPort: 1, DstIP: "1.2.3.4", DstPort: 80}
+		out, pan := askImpl(r, q)
+		e.rep.Note("excluded input: ServerIndex 2 with 2 servers and a fromServers route -> %s (%v)", out, pan)
+	} else {
+		e.rep.Note("excluded input probe: load failed: %s", res)
+	}
+	base.Routes = []RouteSpec{{Name: "by-domain", Client: "c1", ToDomains: []string{"a.test"}}}
+	if r, _, _ := buildImpl(base, e.poolDir); r != nil {
+		var out string
+		pan := common.Safely(func() {
+			_, err := r.GetTCPClient(context.Background(), router.RequestInfo{SourceAddrPort: netip.MustParseAddrPort("10.0.0.1:1")})
+			out = fmt.Sprint(err)
+		})
+		e.rep.Note("excluded input: zero-value TargetAddr with a toDomains route -> %s (%v)", out, pan)
+	}
+}
+
 func main() {
 	o := common.ParseFlags()
 	rep := common.NewReport("C09", o)
@@ -186,15 +273,16 @@ func main() {
 	if err == nil && o.Replay != "" {
 		var c Case
 		if err = common.LoadReplay(o.Replay, &c); err == nil {
-			err = e.evalCases([]Case{c})
+			err = e.evalAll([]Case{c})
 		}
 	} else if err == nil {
+		e.probeExcluded()
 		// directed probe of F3 first
 		before := rep.Distribution["ORACLE-FAIL:"+f3Key]
-		err = e.evalCases(f3Cases())
+		err = e.evalAll(f3Cases())
 		rep.FindingsProbed[f3Key] = rep.Distribution["ORACLE-FAIL:"+f3Key] > before
 		r := common.NewRng(o.Seed)
-		n := o.Budget(1500, 40000)
+		n := o.Budget(1500, 24000)
 		nreq := 20
 		if o.Thorough() {
 			nreq = 50
@@ -202,13 +290,13 @@ func main() {
 		var cases []Case
 		for i := 0; i < n && err == nil; i++ {
 			cases = append(cases, genCase(r.Fork(uint64(i)), nreq))
-			if len(cases) == 250 {
-				err = e.evalCases(cases)
+			if len(cases) == 4000 {
+				err = e.evalAll(cases)
 				cases = cases[:0]
 			}
 		}
 		if err == nil && len(cases) > 0 {
-			err = e.evalCases(cases)
+			err = e.evalAll(cases)
 		}
 	}
 	if err != nil {
